@@ -33,8 +33,8 @@ func runC02(e *env) {
 		return
 	}
 	// two streams from one PRNG state: the historical C02 stream (shared generator defaults) and the scope stream
-	runProgCorrespondence(e, 250*e.scale, progOpts{depth: 3, directives: true}, "C02")
-	runProgCorrespondence(e, 550*e.scale, progOpts{depth: 3, directives: true, scope: true}, "C02")
+	runProgCorrespondence(e, 600*e.scale, progOpts{depth: 3, directives: true}, "C02")
+	runProgCorrespondence(e, 1800*e.scale, progOpts{depth: 3, directives: true, scope: true}, "C02")
 	var hs []string
 	for _, k := range hx.SortedKeys(e.res.Histogram) {
 		if strings.HasPrefix(k, "feat:") {
@@ -106,6 +106,13 @@ func c02Bundle(e *env, files []srcFile, entry string, dataSets []data.Map, feats
 			continue
 		}
 		// ---- the property's oracle: output = Spec output ----
+		if len(out) > 1<<20 {
+			// the extracted Spec concatenates byte lists with Coq's (non tail-recursive) app and exhausts the
+			// OCaml stack on a multi-megabyte output (nested content params inside loops); the model needs
+			// minutes on it.  Counted, not compared.
+			e.res.Histogram["skipped:output>1MB"]++
+			continue
+		}
 		sr := e.m.Call("render_spec", key, sx(entry), c02Fuel, "-", "none", ";", dsx)
 		if len(sr) < 3 {
 			e.res.Fail(hx.Violation{Kind: "mismatch", What: "Spec run failed", Case: pc, Observed: fmt.Sprint(sr)}, "")
